@@ -253,6 +253,9 @@ class Oracle(object):
                     self.bad("datagram-wrong-socket", "UI %d<-%d delivered to socket %s%d which is not bound at %d"
                              % (q.dsap, q.ssap, y, i, q.dsap))
                 s = self.pair.socks[y][i]
+                if s.peer is not None and s.peer != q.ssap:
+                    self.bad("datagram-from-foreign-peer", "socket %s%d is connected to peer %s but took a UI from %d"
+                             % (y, i, s.peer, q.ssap))
                 got = s.recv_queue[-1]
                 if bytes(got.data) != bytes(q.data) or got.ssap != q.ssap:
                     self.bad("datagram-altered", "UI payload/source changed on delivery")
@@ -272,10 +275,16 @@ class Oracle(object):
                     if ready:
                         self.bad("connect-by-name-missed", "CONNECT sn=%r did not reach the listening socket bound under that name" % (q.sn,))
             else:
-                allowed = ref.owner.get(q.dsap, set())
+                allowed = ref.owner.get(q.dsap, set()) if q.dsap > 1 else set()
                 for i in grown:
                     if i not in allowed:
                         self.bad("connect-wrong-socket", "CONNECT to %d reached socket %s%d" % (q.dsap, y, i))
+                if not grown:
+                    ready = [i for i in allowed if self.pair.socks[y][i].state.LISTEN
+                             and len(self.pair.socks[y][i].recv_queue) < self.pair.socks[y][i].recv_buf]
+                    if ready:
+                        self.bad("connect-missed", "CONNECT to %d did not reach the listening socket %s%d bound there"
+                                 % (q.dsap, y, ready[0]))
 
     def judge(self, op, out):
         """op: protocol string, out: canonical outcome of the real code (without wire log)"""
@@ -437,12 +446,12 @@ def judged_history(ops_or_gen, rng=None, prof=None, length=0):
 
 
 # ------------------------------------------------------------------ bounded-exhaustive alphabet
-EX_PREFIX = ["S A dlc", "S A raw", "S A ldl", "S A dlc", "S B dlc", "S B ldl"]
+EX_PREFIX = ["S A dlc", "S A raw", "S A ldl", "S A dlc", "S B dlc", "S B ldl", "S B dlc"]
 NA, NB, NSNEP = hx(SN + b"a"), hx(SN + b"b"), hx(SN + b"snep")
 EX_ALPHA = [
     "B A 0 n " + NA, "B A 3 n " + NA, "B A 3 n " + NB, "B A 0 n " + NSNEP, "B A 1 a 4", "B A 1 a 16", "B A 2 -",
     "B A 2 a 32", "X A 0", "X A 1", "X A 3", "L A 0 1", "L A 3 1", "A A 0", "A A 3",
-    "C B 0 n " + NA, "C B 0 n " + NSNEP, "C B 0 a 16", "Q B " + NA, "T B 1 aa 4", "T B 1 bb 32", "R A 1", "R A 2",
+    "C B 0 n " + NA, "C B 2 n " + NA, "C B 0 n " + NSNEP, "C B 0 a 16", "Q B " + NA, "T B 1 aa 4", "T B 1 bb 32", "R A 1", "R A 2",
 ]
 
 
@@ -511,6 +520,9 @@ def run(ck):
         ["S A raw", "B A 0 a 4", "S A dlc", "B A 1 n " + NSNEP, "S B ldl", "T B 0 aa 4", "M B", "R A 0", "X A 1", "X A 0", "D"],
         # F22: 17th name
         sum([["S A dlc", "B A %d n %s" % (i, hx(SN + b"s%d" % i))] for i in range(17)], []) + ["D"],
+        # second connection request while an accepted connection shares the SAP of the listener
+        ["S A dlc", "B A 0 n " + NA, "L A 0 2", "S B dlc", "C B 0 n " + NA, "A A 0", "S B dlc", "C B 1 n " + NA, "A A 0",
+         "S B dlc", "C B 2 a 16", "A A 0", "X A 0", "S B dlc", "C B 3 n " + NA, "D"],
         # dynamic exhaustion and reuse
         sum([["S A ldl", "B A %d -" % i] for i in range(33)], []) + ["X A 5", "S A raw", "B A 33 -", "D"],
         # datagram to the right socket among neighbours, connected ldl filter, raw spoofed source
